@@ -8,14 +8,16 @@ Driver for the stream `events` (C48).
 
 Direct oracle (spec, judged on each engine's payloads without running the model): every payload's type
 id is that of a declared event (a top-level `Ek` or `Rk.ResourceDestroyed`) and its field names are exactly
-the declared parameter names in declaration order — class `event-shape`.  Then model = each engine
+the declared parameter names in declaration order, and every value (parsed back from the rendered payload)
+conforms to the declared field type — class `event-shape`.  Then model = each engine
 (outcome, log, ordered payloads with values); engines must agree (`engines-differ`).
 -/
 open Verif.Proto Verif.Model.Lang3.Events
 
-def declaredShapes (p : Program) : List (String × List String) :=
-  p.events.map (fun d => (d.id, d.params.map (·.name))) ++
-  (p.resources.zipIdx.filterMap fun (d, i) => d.destroyEvent.map fun ps => (resEventId i, ps.map (·.name)))
+def declaredShapes (p : Program) : List (String × List String × List Ty) :=
+  p.events.map (fun d => (d.id, d.params.map (·.name), d.params.map (·.ty))) ++
+  (p.resources.zipIdx.filterMap fun (d, i) =>
+    d.destroyEvent.map fun ps => (resEventId i, ps.map (·.name), ps.map (·.ty)))
 
 /-- `Ty(n1=v1,n2=v2)` → (`Ty`, [n1, n2]); values may contain `,` `=` inside brackets/quotes: split at depth 0 -/
 def payloadShape (s : String) : String × List String :=
@@ -33,6 +35,61 @@ def payloadShape (s : String) : String × List String :=
       else go rest depth false (c :: cur) acc
   let fields := go body.toList 0 false [] []
   (ty, fields.map fun f => (f.takeWhile (· ≠ '=')).toString)
+
+/-- parser for rendered values (`Int:5`, `"s"`, `true`, `nil`, `some(v)`, `[v,v]`, `addr:0x…`) -/
+partial def parseVal : List Char → Option (Val × List Char)
+  | 'n' :: 'i' :: 'l' :: rest => some (.nil, rest)
+  | 't' :: 'r' :: 'u' :: 'e' :: rest => some (.bool true, rest)
+  | 'f' :: 'a' :: 'l' :: 's' :: 'e' :: rest => some (.bool false, rest)
+  | 's' :: 'o' :: 'm' :: 'e' :: '(' :: rest =>
+    match parseVal rest with
+    | some (v, ')' :: rest') => some (.some v, rest')
+    | _ => none
+  | '"' :: rest =>
+    let str := rest.takeWhile (· ≠ '"')
+    some (.str (String.ofList str), (rest.drop (str.length + 1)))
+  | 'a' :: 'd' :: 'd' :: 'r' :: ':' :: '0' :: 'x' :: rest =>
+    let hex := rest.takeWhile fun c => c.isDigit || ('a' ≤ c && c ≤ 'f')
+    let n := hex.foldl (fun acc c => acc * 16 + (if c.isDigit then c.toNat - '0'.toNat else c.toNat - 'a'.toNat + 10)) 0
+    some (.addr n, rest.drop hex.length)
+  | '[' :: ']' :: rest => some (.arr [], rest)
+  | '[' :: rest =>
+    let rec elems (cs : List Char) (acc : List Val) : Option (List Val × List Char) :=
+      match parseVal cs with
+      | some (v, ',' :: rest') => elems rest' (v :: acc)
+      | some (v, ']' :: rest') => some ((v :: acc).reverse, rest')
+      | _ => none
+    (elems rest []).map fun (vs, r) => (.arr vs, r)
+  | cs =>
+    let ty := cs.takeWhile (· ≠ ':')
+    match cs.drop ty.length with
+    | ':' :: rest =>
+      let num := rest.takeWhile fun c => c.isDigit || c == '-'
+      (String.ofList num).toInt?.map fun n => (.int (String.ofList ty) n, rest.drop num.length)
+    | _ => none
+
+/-- `Ty(n1=v1,n2=v2)` → the rendered values, split at depth 0 -/
+def payloadValues (s : String) : List String :=
+  let ty := (s.takeWhile (· ≠ '(')).toString
+  let body := ((s.drop (ty.length + 1)).dropEnd 1).toString
+  let rec go (cs : List Char) (depth : Nat) (inStr : Bool) (cur : List Char) (acc : List String) : List String :=
+    match cs with
+    | [] => if cur.isEmpty then acc.reverse else (String.ofList cur.reverse :: acc).reverse
+    | c :: rest =>
+      if inStr then go rest depth (c ≠ '"') (c :: cur) acc
+      else if c == '"' then go rest depth true (c :: cur) acc
+      else if c == '(' || c == '[' || c == '{' then go rest (depth + 1) false (c :: cur) acc
+      else if c == ')' || c == ']' || c == '}' then go rest (depth - 1) false (c :: cur) acc
+      else if c == ',' && depth == 0 then go rest depth false [] (String.ofList cur.reverse :: acc)
+      else go rest depth false (c :: cur) acc
+  (go body.toList 0 false [] []).map fun f => ((f.dropWhile (· ≠ '=')).drop 1).toString
+
+/-- every delivered value conforms to the declared field type (judged on the Go payload alone) -/
+def valuesConform (tys : List Ty) (vals : List String) : Bool :=
+  tys.length == vals.length && (tys.zip vals).all fun (t, v) =>
+    match parseVal v.toList with
+    | some (x, []) => hasTy x t
+    | _ => false
 
 def obsEvents (o : String) : List String :=
   match o.splitOn "|" with
@@ -61,7 +118,7 @@ def judge (op : List String) (go : String) : Verdict :=
       let shapeOk := fun (o : String) => (obsEvents o).all fun e =>
         let (ty, names) := payloadShape e
         match shapes.find? (·.1 == ty) with
-        | some (_, declared) => declared == names
+        | some (_, declared, tys) => declared == names && valuesConform tys (payloadValues e)
         | none => false
       let m := renderRun p.run
       let nEv := (obsEvents oi).length
@@ -69,7 +126,7 @@ def judge (op : List String) (go : String) : Verdict :=
       let tags := forms ++ ["events=" ++ toString (min nEv 8)] ++ (if destroyEv then ["destroy-payload"] else []) ++
         (if nEv > 0 then ["!nt"] else [])
       if !(shapeOk oi && shapeOk ov && shapeOk oo) then
-        .violation "event-shape" "declared type id; declared fields in declaration order" tags
+        .violation "event-shape" "declared type id; declared fields in declaration order; values of the declared types" tags
       else if oi ≠ ov then .violation "engines-differ" ("vm = interpreter = " ++ oi) tags
       else if ov ≠ oo then .violation "peephole-differs" ("vm+peephole = vm = " ++ ov) tags
       else if m.startsWith "model-internal" then .skip m
